@@ -9,6 +9,7 @@ import ast
 
 from ..astutil import const_value as const_value
 from ..astutil import (names_in, call_name, calls_in, find_func, is_self_attr, parse_stmt, replace_node, enclosing_stmt)
+from ..astutil import inline_single_defs
 from ..cfg import CFG
 from ..effects import Effects
 from ..frontend import AnalysisError, walk_function
@@ -36,6 +37,7 @@ EXPLANATION += (" R-C13-5 also requires every path of a code helper to look the 
 EXPLANATION += (" R-C13-8: array data is attached to the object's index positionally; pd.Series(<freshly built Series>, index=...) re-keys by label and is a violation (built-in positive example).")
 EXPLANATION += (" R-C13-7: the object is aligned directly with the caller's parameter only where an isinstance test excludes the combination DataFrame object / Series parameter (which is otherwise wrapped into a one-column frame).")
 EXPLANATION += (' R-C13-9 (shared with R-C14-11): after `a, b = x.broadcast(y)` neither result is re-ordered on its own (sort_index, sort_values, sample, reindex, stepped slice) - the consumers combine the two row by row; built-in example.')
+EXPLANATION += (' R-C13-10: no broadcast frame is built as pd.DataFrame(<list of the Series object>) without an explicit index (pandas would label the rows with the object\'s name); built-in example.')
 ASSUMPTIONS = [
     "pandas DataFrame.align(Series, axis=0) may return the frame with its previous index when the joined index requires no row "
     "movement on the frame side (behaviour of the installed pandas; the repository wraps the series for that reason)",
@@ -297,6 +299,7 @@ def run(ctx):
     ctx.attempt(_r7)
     ctx.attempt(_r8)
     ctx.attempt(_r9)
+    ctx.attempt(_r10)
 
 
 def _kind_tests(test):
@@ -436,6 +439,56 @@ def paired_results_rule(ctx, rule, modules):
             ctx.holds(fi, fi.node, "%s: the results of its broadcast are not re-ordered individually" % fi.name)
     if n < 1:
         raise AnalysisError("%s: no consumer of broadcast() found" % rule)
+
+
+def frames_from_series_lists(fn_node):
+    """pd.DataFrame(<list of Series>) without index=: pandas labels the rows with the `name` of each Series - a Series taken
+    from a frame with .loc[key] carries the key as its name, so all rows get that label instead of 0..n-1"""
+    out = []
+    for c in ast.walk(fn_node):
+        if isinstance(c, ast.Call) and call_name(c) in ("pd.DataFrame", "pandas.DataFrame") and c.args and \
+                not any(k.arg == "index" for k in c.keywords):
+            a = inline_single_defs(fn_node, c.args[0]) if isinstance(c.args[0], ast.Name) else c.args[0]
+            lst = None
+            if isinstance(a, ast.BinOp) and isinstance(a.op, ast.Mult):
+                lst = a.left if isinstance(a.left, ast.List) else a.right if isinstance(a.right, ast.List) else None
+                elts = lst.elts if lst is not None else []
+            elif isinstance(a, ast.List):
+                elts = a.elts
+            elif isinstance(a, ast.ListComp):
+                elts = [a.elt]
+            else:
+                elts = []
+            if elts and all(is_self_attr(e, "_obj") or (isinstance(e, ast.Call) and isinstance(e.func, ast.Attribute) and
+                                                        e.func.attr in ("copy",) and is_self_attr(e.func.value, "_obj"))
+                            for e in elts):
+                out.append(c)
+    return out
+
+
+def _r10(ctx):
+    """R-C13-10: the frame a Series object is broadcast into has the row labels the broadcaster gives it (0..n-1 or the
+    parameter's index), never labels pandas derives from the object's `name`."""
+    prog = ctx.prog
+    ctx.rule("R-C13-10", floor=1, what="a broadcast frame is not built from a list of the Series object (row labels would be its name)")
+    ex = ast.parse("def f(self, p):\n    return pd.DataFrame([self._obj] * len(p)), pd.DataFrame([self._obj] * len(p), index=range(len(p)))\n").body[0]
+    if len(frames_from_series_lists(ex)) != 1:
+        raise AnalysisError("R-C13-10 built-in example not matched")
+    n = 0
+    m = 0
+    for key, fi in sorted(prog.functions.items()):
+        if fi.module.name != MOD or fi.parent is not None:
+            continue
+        n += 1
+        for c in frames_from_series_lists(fi.node):
+            m += 1
+            ctx.violated(fi, c, "%s: %s builds the broadcast frame from a list of the Series object: pandas labels every row with "
+                         "the object's name (the key of a curve taken with .loc[key]), so object and parameter no longer share an "
+                         "index" % (fi.name, norm_text(c)[:60]), text="frame from list of the object in " + fi.name)
+    if n < 5:
+        raise AnalysisError("broadcaster functions not found")
+    if not m:
+        ctx.holds(MOD, None, "%d broadcaster functions: no frame is built from a list of the Series object" % n)
 
 
 def _r9(ctx):
